@@ -8,7 +8,7 @@ sides of every threshold (numeric and unit spellings) x 4 private/announce combi
 allow-list orderings/duplicates, announce-tier-only, stdin input, a seeded random stream and a
 malformed stream; compared with the extracted `Lint.status` and judged by a direct oracle written
 from the property's words."""
-import itertools, json, os, re, shutil, tempfile
+import itertools, json, os, re, shutil, tempfile, zlib
 import lib
 
 MANIFEST = dict(
@@ -28,6 +28,9 @@ U32 = (1 << 32) - 1
 NAMES = {"p": "private-trackerless", "s": "small-piece-length", "u": "uneven-piece-length"}
 CODES = {v: k for k, v in NAMES.items()}
 ANNOUNCE = "http://tracker.example.com/announce"
+ANNOUNCES = [ANNOUNCE, "udp://tracker.example.com:6969/announce", "https://tracker.example.com/announce",
+             "wss://tracker.example.com/announce", "ws://tracker.example.com:8000/announce", "ftp://tracker.example.com/a",
+             "x-custom://tracker.example.com/announce", "udp:bar.com"]
 UNITS = [("KiB", 1 << 10), ("MiB", 1 << 20), ("GiB", 1 << 30), ("TiB", 1 << 40)]
 ANSI = re.compile(r"\x1b\[[0-9;]*[A-Za-z]")
 
@@ -105,6 +108,15 @@ def spellings(v):
     if out:
         t = out[0][0]
         out.append((t.lower(), "lower-case-unit"))
+    # fractions with two to six decimals that are exact in binary (0.25MiB, 0.125KiB, 0.015625MiB): the digits after the first
+    # count too (added after seeded change C14-11: the fraction digits folded in the wrong order, right for one digit only)
+    from fractions import Fraction
+    for name, u in UNITS:
+        q = Fraction(v, u)
+        k = q.denominator.bit_length() - 1
+        if v and 2 <= k <= 6 and q.denominator == 1 << k and v // u < 100000:
+            out.append(("%d.%s%s" % (v // u, str(int((q - v // u) * 10 ** k)).zfill(k), name), "multi-digit-fraction"))
+            break
     return out
 
 
@@ -218,7 +230,9 @@ def argv_of(c):
     if c["private"]:
         a.append("--private")
     if c["announce"]:
-        a += ["--announce", ANNOUNCE]
+        # any URL is a tracker for this rule, whatever its scheme (added after seeded change C14-12: only http, https and udp
+        # announce URLs counted as "has a tracker")
+        a += ["--announce", ANNOUNCES[zlib.crc32(repr((c["pl"], sorted(c["allow"]), c["kind"])).encode()) % len(ANNOUNCES)]]
     if c["tier_only"]:
         a += ["--announce-tier", ANNOUNCE]
     if c.get("dry"):
